@@ -21,9 +21,27 @@ _sp16.loader.exec_module(c16opt)
 PROOFS = ([p for p in c09.PROOFS if p.name in _dec] + tokenizer_proofs.select(['tok_layout', 'parse_whitespace', 'parse_newline', 'parse_bs_newline', 'parse_off_newlines', 'parse_next_head'])
           + [p for p in c20.all_proofs() if p.name in ('newlines_eat_start_end', 'newlines_eat_start_end_single')]
           + [p for p in c16opt.all_proofs() if p.name in ('read_number_signed', 'read_number_unsigned', 'bool_read')])
-from prover import Proof  # noqa: E402
+from prover import Proof, REPO  # noqa: E402
 _POOL = '(pc == P0 || pc == P1 || pc == P2 || pc == PN)'
 # WIP (contract + loop contracts written, solver does not finish in 10 min): termination of align_nl_cont; NOT part of the check
+def _max_token_count():
+    import re
+    t = open(os.path.join(REPO, 'src/tokenizer/check_template.cpp')).read()
+    mo = re.search(r'const int max_token_count = (\d+);\n      E_Token   tokens\[max_token_count\];\n      size_t    num_tokens = 1;\n\n      tokens\[0\] = CT_ANGLE_OPEN;\n\n      for \(pc = start->GetNextNcNnl\(E_Scope::PREPROC\);\n           pc->IsNotNullChunk\(\);\n           pc = pc->GetNextNcNnl\(E_Scope::PREPROC\)\)', t)
+    return int(mo.group(1)) if mo else None
+
+
+_MTC = _max_token_count()
+TMPL_SCAN = Proof('check_template_scan', impl='contracts/C06/tmplscan.impl.cpp', spec='contracts/C06/tmplscan.spec.c', harness='h_check_template_scan', plain=True, no_contract=True,
+                  canaries=2, defines=['MAX_TOKEN_COUNT=%d' % (_MTC or 1024)], nondet_static=None, slice_formula=True,
+                  rules={'check_template_scan': [('D8', [(r'auto brace_open  = pc->GetNextNcNnl\(\);', 'Chunk *brace_open  = pc->GetNextNcNnl();', 'auto of Chunk*', True), (r'auto brace_close = brace_open->GetClosingParen\(\);', 'Chunk *brace_close = brace_open->GetClosingParen();', 'auto of Chunk*', True)])]},
+                  functions=['check_template.cpp:check_template (fragment: one iteration of the forward scan with the bracket stack tokens[max_token_count])'], drop_flags=['--conversion-check'],
+                  assumed=['chunk navigation: an arbitrary chunk of the pool per step (any token sequence of any length)', 'split_off_angle_close, handle_double_angle_close, invalid_open_angle_template, detect_cpp_braced_init_list: no effect on the stack',
+                           'termination of the scan (finiteness of the chunk list) is not part of this contract'],
+                  expect=['postcondition: check_template scan'],
+                  mutants=[('angle_push_unguarded', r'(            else\n            \{\n)               if \(num_tokens >= max_token_count - 1\)\n               \{\n                  break;\n               \}\n(               tokens\[num_tokens\] = CT_ANGLE_OPEN;)', r'\1\2', 'postcondition|bounds|array'),
+                           ('paren_push_unguarded', r'if \(num_tokens >= max_token_count - 1\)\n            \{\n               break;\n            \}\n            tokens\[num_tokens\] = CT_PAREN_OPEN;', 'tokens[num_tokens] = CT_PAREN_OPEN;', 'postcondition|bounds|array')])
+PROOFS.append(TMPL_SCAN)
 WIP_PROOFS = []
 WIP_PROOFS.append(Proof('align_nl_cont', impl='contracts/C06/alignnl.impl.cpp', spec='contracts/C06/alignnl.spec.c', enforce='align_nl_cont/align_nl_cont_contract',
                     replace=['c_get_next/get_next_contract', 'c_align_add/align_add_contract', 'c_pop_back/pop_back_contract'], canaries=2,
@@ -39,7 +57,7 @@ EXPLANATION = ('Kernel of C06. CBMC\'s automatic obligations (container precondi
                'are the property\'s "never by a memory-safety/undefined-behaviour fault", and the decreases clauses of the loop contracts its "terminates", for every byte '
                'vector / code-point sequence of any length: all decoders of src/unicode.cpp and the white-space primitives of the tokenizer, with progress contracts '
                '(true => cursor advanced, false => cursor restored exactly). Malformed UTF-8/UTF-16 is refused.')
-K = ['K5 newlines_eat_start_end: no chunk is deleted twice or touched after its deletion, also when the file is a single newline chunk (head == tail)',
+K = ['K7 check_template (forward scan, one iteration under the loop invariant): no access to the bracket stack tokens[max_token_count] leaves the array, however deeply the input nests < and (', 'K5 newlines_eat_start_end: no chunk is deleted twice or touched after its deletion, also when the file is a single newline chunk (head == tail)',
      'K6 configuration values: read_number / Option<bool>::read never read outside the value text, for every text (including the empty one)',
      'K4 uncrustify_file: output_text exactly once and last; an embedded NUL exits before uncrustify_start', 'K1 unicode.cpp decoders: safe and terminating for any length; |out| <= |in|', 'K2 tokenizer white-space primitives: safe, terminating, progress/restore']
 G = ['tokenize() main loop terminates given progress of parse_next: parse_next\'s progress contract is proved only for the leaf callees listed here; for parse_number, parse_string, parse_word, parse_comment, ... it is an ASSUMED contract',
@@ -60,4 +78,9 @@ def proofs(tier, workroot):
 
 sys.path.insert(0, os.path.join(os.path.dirname(os.path.abspath(__file__)), '..', '..', 'tools'))
 import replay_lib  # noqa: E402
-REPLAY = replay_lib.make_replay(replay_lib.scenario_encoding, replay_lib.scenario_line_endings)
+REPLAY = replay_lib.make_replay(replay_lib.scenario_deep_angles, replay_lib.scenario_encoding, replay_lib.scenario_line_endings)
+
+
+def static_facts(repo):
+    """What the one-iteration extraction of the check_template scan drops: the declaration of the stack, the initialisation that establishes the invariant and the for header."""
+    return [('check_template: `const int max_token_count = N; E_Token tokens[max_token_count]; size_t num_tokens = 1; tokens[0] = CT_ANGLE_OPEN;` directly precede the for loop over GetNextNcNnl(PREPROC)', _MTC is not None, '')]
